@@ -36,7 +36,51 @@ def parse_trace(path):
     return plans, fails
 
 
+def crash_reason(err):
+    lines = [l for l in err.strip().splitlines() if l.strip()]
+    for l in lines:
+        if "unsafe precondition" in l or "panicked at" in l or "should be" in l or "assertion" in l:
+            return l.strip()[:200]
+    return lines[-1][:200] if lines else ""
+
+
+def crash_props(ctx, rc, err):
+    """which properties an abort of the harness process speaks about (the abort message of the
+    standard library's debug precondition checks / the crate's own assertions says what went wrong)"""
+    if rc in (3, -999):
+        return ["C09"]
+    e = err
+    if "copy_nonoverlapping" in e or "ptr::copy" in e:
+        return ["C01", "C02", "C12"]          # overlapping / out-of-block copy: placement and contents
+    if "is_aligned" in e or "aligned to" in e or "misaligned" in e:
+        return ["C04", "C01"]
+    if "from_raw_parts" in e or "offset_from" in e:
+        return ["C10", "C01"]
+    if "double free" in e or "free():" in e or "invalid pointer" in e or "munmap_chunk" in e:
+        return ["C03", "C01"]
+    if "malloc():" in e or "corrupted" in e or "invalid size" in e or "invalid next size" in e:
+        return ["C01", "C02", "C12"]          # heap metadata overwritten: a write outside a block the arena handed out
+    # anything else (segfault, unknown abort): memory safety of the arena is the umbrella property
+    return ["C01"]
+
+
 def run_one(ctx, bvh, drv, args, tag):
+    """one harness process + driver; after an abort the job is re-run without the aborting plan so
+    that the remaining plans are still explored (at most 4 times)"""
+    res = run_once(ctx, bvh, drv, args, tag)
+    tries = 0
+    skipped = []
+    while res["rc"] not in (0,) and res.get("crashed_plan") is not None and args and args[0] == "arena" and tries < 4:
+        skipped.append(res["crashed_plan"])
+        tries += 1
+        more = run_once(ctx, bvh, drv, args + ["skip=" + ",".join(str(k) for k in skipped)], f"{tag}_r{tries}")
+        # keep the crash record, take plans/diffs from the completed re-run
+        more["fails"] = res["fails"] + [f for f in more["fails"]]
+        res = more
+    return res
+
+
+def run_once(ctx, bvh, drv, args, tag):
     """one harness process + one driver process; returns dict"""
     trace = os.path.join(ctx.workdir, f"trace_{tag}.txt")
     cur = os.path.join(ctx.workdir, f"cur_{tag}.plan")
@@ -47,7 +91,7 @@ def run_one(ctx, bvh, drv, args, tag):
     t = time.time()
     try:
         p = subprocess.run(cmd, stdout=subprocess.PIPE, stderr=subprocess.PIPE, timeout=ctx.spec.get("timeout", 900))
-        rc, err = p.returncode, p.stderr.decode("utf-8", "replace")[-600:]
+        rc, err = p.returncode, p.stderr.decode("utf-8", "replace")[-6000:]
     except subprocess.TimeoutExpired:
         rc, err = -999, "timeout"
     plans, fails = parse_trace(trace)
@@ -56,9 +100,11 @@ def run_one(ctx, bvh, drv, args, tag):
         # hang (3) or crash: the plan so far is the failing input
         plan_text = open(cur).read() if os.path.exists(cur) else ""
         name = "does-not-terminate" if rc in (3, -999) else "crash"
-        prop = "C09" if rc in (3, -999) else ctx.prop
-        res["fails"].append({"prop": prop, "name": name, "detail": f"harness exit={rc} {err.strip().splitlines()[-1] if err.strip() else ''}",
-                             "plan": None, "op": None, "trace": trace, "plan_text": plan_text})
+        m = re.search(r"PLAN idx=(\d+)", plan_text)
+        res["crashed_plan"] = int(m.group(1)) if m else None
+        for prop in crash_props(ctx, rc, err):
+            res["fails"].append({"prop": prop, "name": name, "detail": f"harness exit={rc} {crash_reason(err)}",
+                                 "plan": None, "op": None, "trace": trace, "plan_text": plan_text})
     with open(trace, "rb") as fh:
         try:
             d = subprocess.run([drv], stdin=fh, stdout=subprocess.PIPE, stderr=subprocess.PIPE, timeout=600)
